@@ -13,7 +13,7 @@ MM = 'aiocoap.messagemanager:MessageManager'
 KEY = Tuple(Opt(Ref('Remote')), Opt(INT))
 EXCH = Tuple(CALLABLE, Ref('TimerHandle'))
 BACKLOG_ITEM = Tuple(Ref('Message'), Opt(CALLABLE))
-PBKEY = Tuple(Opt(Ref('Remote')), BYTES)
+PBKEY = Tuple(Opt(Ref('Remote')), BKEY)
 CON, NON, ACK, RST = 0, 1, 2, 3
 
 
